@@ -8,6 +8,7 @@ import (
 	"github.com/ethereum/go-ethereum/accounts/abi"
 
 	errorsmod "cosmossdk.io/errors"
+	sdkmath "cosmossdk.io/math"
 )
 
 const solidityTypeString = "string"
@@ -85,10 +86,13 @@ func DecodeABIFungibleTokenPacketData(data []byte) (*FungibleTokenPacketData, er
 }
 
 func EncodeABIFungibleTokenPacketData(data *FungibleTokenPacketData) ([]byte, error) {
-	amount, ok := new(big.Int).SetString(data.Amount, 10)
+	// parse the amount exactly like ValidateBasic and Token.ToCoin do, so that every
+	// encoding carries the same integer
+	amountInt, ok := sdkmath.NewIntFromString(data.Amount)
 	if !ok {
 		return nil, errorsmod.Wrapf(ErrAbiEncoding, "failed to parse amount: %s", data.Amount)
 	}
+	amount := amountInt.BigInt()
 
 	packetData := struct {
 		Denom    string   `json:"denom"`
